@@ -140,6 +140,52 @@ func checkC07(c *Ctx, r *Report) {
 				iPop = i
 			}
 		}
+		// $$ is what the action makes it: apart from the symbol index, the generator's own text of a case never
+		// touches the new entry — an action that leaves $$ alone yields the zero value, for every rule alike
+		{
+			var touched []string
+			var walk func(x Shape, inCase bool)
+			walk = func(x Shape, inCase bool) {
+				switch v := x.(type) {
+				case *SLit:
+					if !inCase {
+						return
+					}
+					rest := v.S
+					for {
+						i := strings.Index(rest, "dollarDolar")
+						if i < 0 {
+							break
+						}
+						rest = rest[i+len("dollarDolar"):]
+						if !strings.HasPrefix(rest, ".YySymIndex = ") {
+							line := rest
+							if j := strings.IndexByte(line, '\n'); j >= 0 {
+								line = line[:j]
+							}
+							touched = append(touched, "dollarDolar"+line)
+						}
+					}
+				case *SCat:
+					for _, p := range v.Parts {
+						walk(p, inCase)
+					}
+				case *SLoop:
+					walk(v.Body, inCase || strings.HasSuffix(v.Over, "ProductoinRules)") || strings.HasSuffix(v.Over, "ProductoinRules"))
+				case *SAlt:
+					walk(v.Then, inCase)
+					walk(v.Else, inCase)
+				case *SRepl:
+					walk(v.Base, inCase) // the replacement text is the user's $$ / $n, not the generator's own statement
+				case *SQuote:
+					walk(v.Inner, inCase)
+				}
+			}
+			walk(b.sh, false)
+			r.Check(iAct >= 0 && len(touched) == 0, "C07.b", "R12 STATE-INVENTORY", b.name+"/$$-only-the-action-fills-it", c.pos(b.pos),
+				"the generator's own text of a reduce case writes the new entry's symbol index and nothing else of it: $$ is the zero value until the action assigns it",
+				"the generated case touches the new entry outside the action ("+strings.Join(dedupStrings(touched), "; ")+"): a rule whose action does not assign $$ no longer yields the zero value, and fields of the union other than the tagged one are filled")
+		}
 		r.Check(iAct >= 0 && iPop > iAct, "C07.b", "R2 ORDER", b.name+"/action-before-pop", c.pos(b.pos),
 			"inside a case the action runs while the right-hand side's entries are still on the stack; the pop follows", "the pop precedes the action text: $n would read entries that are already above the stack pointer")
 	}
